@@ -84,6 +84,19 @@ def cases(tier, seed):
                        'nmax': 48},
                 'n_tuples': int(r.choice([12, 24, 40, 2, 3, 5])),
                 'seed': int(r.randint(1000))})
+  # a first projection that converges only after hundreds of thousands of
+  # sweeps (budget half-space nearly tangent to the PSD cone), with max_proj
+  # raised accordingly: "max_proj large enough for one projection to converge"
+  for i in range(1 if q else 4):
+    r = rng_for('c14-slow', seed, i)
+    out.append({'est': 'MMC', 'tight': False, 'slow': True,
+                'C': float(r.uniform(3000, 5000)),
+                'params': {'init': '@slow', 'max_iter': 1,
+                           'max_proj': 2000000, 'tol': 1e-3,
+                           'diagonal': False},
+                'ds': {'seed': int(r.randint(2**31 - 1)), 'd': 2,
+                       'classes': 2, 'variant': 'plain', 'nmax': 20},
+                'n_tuples': 3, 'seed': int(r.randint(1000))})
   # long trajectories in two and three dimensions: rejected cycles followed
   # by accepted ones, projections that start from a restored iterate
   for i in range(80 if q else 1600):
@@ -244,7 +257,59 @@ def _reference_cycles(A0, S, Dn, t, max_iter, max_proj, tol, eps=0.01):
   return out
 
 
+def _slow_case(spec, j):
+  from metric_learn import MMC
+  rng = rng_for('c14-slow-run', spec['ds']['seed'])
+  C = spec['C']
+  pairs = np.array([[[0., 0.], [1., 0.]],
+                    [[0., 0.], [0.3, 1.]],
+                    [[1., 2.], [0.5, -1.]]])
+  # (the similar pair differs along the first feature only: that is what
+  # makes the budget half-space nearly tangent to the cone; the dissimilar
+  # pairs may move)
+  pairs[1:] += 0.02 * rng.randn(2, 2, 2)
+  y = np.array([1, -1, -1])
+  init = np.array([[1., 0.5 * np.sqrt(C)], [0.5 * np.sqrt(C), C]])
+  S = pairs[y == 1][:, 0] - pairs[y == 1][:, 1]
+  t = _sumsq(init, S) / 100.0
+  det = {'est': 'MMC', 'family': 'slow first projection', 'C': C,
+         'max_proj': spec['params']['max_proj']}
+  est = MMC(init=init, max_iter=1, max_proj=spec['params']['max_proj'])
+  api.set_judge(j, well_formed=True)
+  with Quiet():
+    try:
+      est.fit(pairs, y)
+    except Exception as e:
+      api.set_well_formed(False)
+      j.violated('C14.fit-returns', dict(det, raised=repr(e)[:300]),
+                 mechanism='mmc-raised-' + type(e).__name__)
+      return
+  api.set_well_formed(False)
+  M = est.get_mahalanobis_matrix()
+  lam = np.linalg.eigvalsh((M + M.T) / 2)
+  j.check('C14.psd', lam.min() >= -1e-10 * max(np.abs(M).max(), 1e-300),
+          dict(det, lambda_min=lam.min()))
+  ssq = _sumsq(M, S)
+  if ssq <= 1.01 * (1 + 1e-9) * t:
+    j.ok('C14.budget')
+    j.ok('C14.first-projection-converges')
+    j.count('c14.slow-projection-converged')
+    return
+  # over budget: only a violation if the documented projection does converge
+  # within max_proj (decided by the harness' own alternating projection)
+  if _reference_projection_converges(init, S, t, spec['params']['max_proj']):
+    j.violated('C14.first-projection-converges',
+               dict(det, budget=t, sum_sq=ssq, ratio=ssq / t,
+                    why='the documented alternating projection reaches the '
+                    'budget within max_proj, the returned matrix is outside'),
+               mechanism='first-projection-infeasible')
+  else:
+    j.skip('C14', 'reference-projection-does-not-converge-either')
+
+
 def run_case(spec, j):
+  if spec.get('slow'):
+    return _slow_case(spec, j)
   name = spec['est']
   ds = common.dataset(spec['ds'])
   X = np.asarray(ds['X'], dtype=float)
